@@ -32,6 +32,9 @@
 #include <csignal>
 #include <map>
 #include <omp.h>
+#include <set>
+#include <sys/wait.h>
+#include <unistd.h>
 #include <unordered_map>
 #include <unordered_set>
 
@@ -808,6 +811,102 @@ int main(int argc, char **argv) {
   Totals T;
   std::vector< int > all8 = {0, 1, 2, 3, 4, 5, 6, 7};
 
+  // ---- family E (runs first, before any thread exists: uses fork): positions
+  // one ulp next to faces. Interior faces: the located leaf must contain the
+  // position to round-off. Upper box faces: the largest double below the face
+  // is inside the half-open box; the block index is computed as
+  // n*(p-anchor)/side and may round up to n, which indexes past the block
+  // array - those calls are made in a child process.
+  uint64_t ulp_probes = 0, top_probes = 0;
+  for (const Cfg &cfg : cfgs) {
+    const std::string cls = cfg.dyadic ? "" : ":nondyadic";
+    KeyVec hist = {block_key(cfg.nb[0] - 1, cfg.nb[1] - 1, cfg.nb[2] - 1)};
+    hist.push_back(child_key(hist[0], 7));
+    Model M;
+    M.build(cfg, hist);
+    Box<> box(CoordinateVector<>(cfg.A[0], cfg.A[1], cfg.A[2]), CoordinateVector<>(cfg.S[0], cfg.S[1], cfg.S[2]));
+    Grid grid(box, CoordinateVector< uint_fast32_t >(cfg.nb[0], cfg.nb[1], cfg.nb[2]));
+    grid.create_all_cells(0);
+    for (uint64_t k : hist)
+      grid.refine_cell(k);
+    double ptol[3], top[3];
+    for (int d = 0; d < 3; ++d) {
+      ptol[d] = 8. * DBL_EPSILON * (std::fabs(cfg.A[d]) + std::fabs(cfg.S[d]));
+      top[d] = cfg.A[d] + cfg.S[d];
+    }
+    auto contains_loosely = [&](uint64_t key, const CoordinateVector<> &p) {
+      const Box<> g = grid[key].get_geometry();
+      const CoordinateVector<> t = g.get_top_anchor();
+      bool in = true;
+      for (int d = 0; d < 3; ++d)
+        in &= p[d] >= g.get_anchor()[d] - ptol[d] && p[d] <= t[d] + ptol[d];
+      return in;
+    };
+    std::set< uint64_t > leafset(M.leaves.begin(), M.leaves.end());
+    for (uint64_t k : M.leaves) {
+      const Box<> g = grid[k].get_geometry();
+      const CoordinateVector<> mid = grid[k].get_midpoint();
+      for (int d = 0; d < 3; ++d)
+        for (int side = 0; side < 2; ++side)
+          for (int sgn = -1; sgn <= 1; sgn += 2) {
+            const double face = side ? g.get_top_anchor()[d] : g.get_anchor()[d];
+            CoordinateVector<> p = mid;
+            p[d] = std::nextafter(face, sgn > 0 ? DBL_MAX : -DBL_MAX);
+            if (p[d] < cfg.A[d] || p[d] >= top[d])
+              continue; // outside the half-open box
+            const std::string rep = fmt("{\"cfg\": \"%s\", \"build\": \"refine\", \"history\": \"%s\", \"point\": \"%a %a %a\"}", cfg.name.c_str(),
+                                        hist_str(hist).c_str(), p.x(), p.y(), p.z());
+            const bool at_top = side == 1 && sgn < 0 && std::fabs(face - top[d]) <= ptol[d];
+            uint64_t key = 0;
+            int status = 0; // 0 ok, 1 crashed
+            {
+              if (at_top)
+                ++top_probes;
+              else
+                ++ulp_probes;
+              int fd[2];
+              if (pipe(fd) != 0)
+                continue;
+              fflush(nullptr);
+              const pid_t pid = fork();
+              if (pid == 0) {
+                close(fd[0]);
+                alarm(5);
+                const uint64_t kk = grid.get_key(p);
+                const uint64_t &content = grid.get_cell(p);
+                (void)content;
+                if (write(fd[1], &kk, 8) != 8)
+                  _exit(3);
+                _exit(0);
+              }
+              close(fd[1]);
+              int stt = 0;
+              const ssize_t nr = read(fd[0], &key, 8);
+              close(fd[0]);
+              waitpid(pid, &stt, 0);
+              if (nr != 8 || !WIFEXITED(stt) || WEXITSTATUS(stt) != 0)
+                status = 1;
+            }
+            const char *where = at_top ? ":one-ulp-below-upper-box-face" : ":one-ulp-from-an-interior-face";
+            if (status == 1)
+              R.violation(std::string("C16:amr:get_key:crash") + where,
+                          fmt("cfg %s (anchor %g, side %g, %d blocks along axis %d): get_key/get_cell(%a,%a,%a) crashes or aborts in a child "
+                              "process; the position is inside the half-open box (%a < top %a) but n*(p-anchor)/side rounds to n",
+                              cfg.name.c_str(), cfg.A[d], cfg.S[d], cfg.nb[d], d, p.x(), p.y(), p.z(), p[d], top[d]),
+                          rep);
+            else if (!leafset.count(key))
+              R.violation(std::string("C16:amr:get_key:not-a-leaf") + where,
+                          fmt("cfg %s: get_key(%a,%a,%a) = 0x%" PRIx64 " is not a leaf of the grid (position inside the half-open box, "
+                              "%a < top %a along axis %d)",
+                              cfg.name.c_str(), p.x(), p.y(), p.z(), key, p[d], top[d], d),
+                          rep);
+            else if (!contains_loosely(key, p))
+              R.violation(std::string("C16:amr:containment") + where + cls,
+                          fmt("cfg %s: leaf 0x%" PRIx64 " found for (%a,%a,%a) misses it by more than round-off", cfg.name.c_str(), key, p.x(), p.y(), p.z()), rep);
+          }
+    }
+  }
+
   // ---- family A: full BFS (budget = refinements, depth = deepest leaf level)
   struct Plan {
     std::string cfg;
@@ -997,6 +1096,8 @@ int main(int argc, char **argv) {
   R.set("transitions_familyD_nondyadic", (double)(T.transitions - t0));
   R.set("transitions_rejoining_a_known_state", (double)T.rejoin);
   R.set("alternative_builds_compared", (double)T.altbuild);
+  R.set("positions_one_ulp_from_interior_faces", (double)ulp_probes);
+  R.set("positions_one_ulp_below_upper_box_faces_(child_process)", (double)top_probes);
   R.set("lattice_points_checked", (double)C.points);
   R.set("neighbour_pointers_checked", (double)C.nodes_ngb);
   R.set("nondyadic_cases_within_10x_of_tolerance_or_on_a_rounded_face", (double)C.near_tol);
